@@ -584,9 +584,9 @@ def dtype_pack(bs, acc, shard):
                             ns2 = namespace(bs, dict(d=d, s=bs.Bits('0b1'), L=8))
                             g = timed(ns2, m)
                             judge(acc, 'dtype', m, pre + [f"d = {src}"], (g[0], g[1] if g[0] == 'exc' else None), None, group='Dtype.' + m.split('(')[0])
-    vals = ['', ', 1', ', 1, 2', ", 'a'", ', -1', ', 1.5', ", b'a'", ', s', ', 255', ", '0b1', 1"]
-    kws = ['', ', n=8', ', n=-1', ", n='a'", ', a=1', ', uint=3', ', n=0']
-    fl = [x for x in FORMATS if x[0] in "'b" or x.startswith("['u8'")] + ["['u8', 'u:n']", "'u:n, hex:n'", "'u8=a, u8=b'", "'bits'", "'bits:n'", "['u1', 'bin']", "[]", "['']"]
+    vals = ['', ', 1', ', 1, 2', ", 'a'", ', -1', ', 1.5', ", b'a'", ', s', ', 255', ", '0b1', 1", ', IMM', ", '0x3c'", ', IMM, 1']
+    kws = ['', ', n=8', ', n=-1', ", n='a'", ', a=1', ', uint=3', ', n=0', ', x=IMM', ', n=4']
+    fl = [x for x in FORMATS if x[0] in "'b" or x.startswith("['u8'")] + ["['u8', 'u:n']", "'u:n, hex:n'", "'u8=a, u8=b'", "'bits'", "'bits:n'", "['u1', 'bin']", "[]", "['']", "'bits:4'", "'bits:8'", "'bits=x'", "'bits, u1'"]
     for f in (fl[part - 3::3] if part >= 3 else []):
         for v in vals:
             for kw in (kws if v in ('', ', 1') else kws[:2]):
@@ -596,10 +596,19 @@ def dtype_pack(bs, acc, shard):
                 problem = None
                 if got[0] == 'ok':
                     problem = invariants(bs, got[1], None, 'BitStream') if isinstance(got[1], bs.Bits) else 'pack returned a non-bitstring'
+                if got[0] == 'ok' and isinstance(got[1], bs.Bits) and problem is None:
+                    # the caller owns the packed stream: changing it in place must not reach the arguments, IMM or the values of string literals
+                    try:
+                        got[1].invert()
+                        got[1].append('0b1')
+                        got[1].clear()
+                    except Exception as e:  # noqa: BLE001
+                        problem = f"packed stream unusable: {type(e).__name__}"
+                    problem = problem or witness(bs, ns)
                 if ns['s'].bin != '1':
                     problem = 'pack changed its argument'
                 if core.get_options() != (lsb0, False, 'saturate'):
                     problem = problem or 'module options changed'
                     core.set_options(lsb0=lsb0)
-                judge(acc, 'pack', f"r = {src}", pre, (got[0], got[1] if got[0] == 'exc' else None), problem, group='pack')
+                judge(acc, 'pack', f"r = {src}\n    r.invert(); r.append('0b1'); r.clear()", pre, (got[0], got[1] if got[0] == 'exc' else None), problem, group='pack')
     acc.sample(dict(event="Dtype(token, length, scale) for all pool values then build/parse/str/repr/==; pack(fmt, *values, **kwargs) for every format in the pool"))
